@@ -102,7 +102,7 @@ impl Property for C01 {
         ]
     }
     fn cases(tier: Tier) -> u64 {
-        tier.pick(6_000, 200_000)
+        tier.pick(10_000, 200_000)
     }
     fn strategy(_tier: Tier) -> BoxedStrategy<Spec> {
         let cfg_cheap = Cfg::basic();
@@ -245,6 +245,6 @@ impl Property for C01 {
         0.3
     }
     fn class_floors() -> Vec<(&'static str, f64)> {
-        vec![("positive:accepted", 0.05), ("edit:observable", 0.1)]
+        vec![("positive:accepted", 0.05), ("edit:observable", 0.04)]
     }
 }
